@@ -253,6 +253,12 @@ func c28ModifiedTags(rc *RC) {
 			o.RemoveTag(s.ID, "name")
 			n++
 		}
+		// some features carry many modified tags
+		for k := rc.Pick(6, 2, 1, 1); k > 0; k-- {
+			if err := o.AddTag(s.ID, b6.Tag{Key: fmt.Sprintf("note%d", k), Value: b6.NewStringExpression("y")}); err == nil {
+				n++
+			}
+		}
 	}
 	plan, goroutines := c28Plan(rc, n)
 	rc.Case("modtags", n, goroutines, plan.at, plan.always, plan.slowPct)
